@@ -162,14 +162,34 @@ func c02Check(c *run.Ctx, st *c02State, b []byte, family string, salt uint64) []
 			}
 		}
 	}
+	// Online bound: every delivered call consumed at least one input byte and may
+	// cause at most four rasterizer calls, so 4*len(b)+8 can never be crossed by
+	// correct code; crossing it stops the decode at once (a producer whose
+	// activity depends on operand magnitude is not waited for).
+	st.rz.Cap = 4*len(b) + 8
+	capped := false
 	c.Guard("Decode(Renderer)", detail, func() {
 		var z render.Renderer
 		z.SetRasterizer(&st.rz, rect)
+		defer func() {
+			// the cap sentinel is not a panic of the code under test
+			if r := recover(); r != nil {
+				if _, ok := r.(rec.ActivityCapExceeded); ok {
+					capped = true
+					return
+				}
+				panic(r)
+			}
+		}()
 		err3 := decode.Decode(&z, b)
 		if (err3 == nil) != (err == nil) {
 			fail("accept-depends-on-destination", map[string]interface{}{"recorder": errStr(err), "renderer": errStr(err3)})
 		}
 	})
+	st.rz.Cap = 0
+	if capped {
+		fail("raster-activity-not-linear", map[string]interface{}{"raster_calls_when_stopped": st.rz.NMut, "input_bytes": len(b), "drawing_calls": nDraw})
+	}
 	c.Count("raster_calls", int64(st.rz.NMut))
 	c.Count("raster_draws", int64(st.rz.NDraw))
 	if st.rz.NMut > 4*nDraw {
